@@ -43,7 +43,8 @@ func (i *Interp) findIntrinsic(fn *ssa.Function) intrinsic {
 		}
 	}
 	if strings.HasPrefix(name, "(*reflect.rtype).") || strings.HasPrefix(name, "(reflect.Value).") || (strings.HasPrefix(name, "reflect.") && fn.Parent() == nil && !strings.HasPrefix(name, "reflect.init")) {
-		if b := []byte(fn.Name()); len(b) > 0 && b[0] >= 'A' && b[0] <= 'Z' {
+		// (generic helpers such as reflect.TypeFor are interpreted: they only call modelled API)
+		if b := []byte(fn.Name()); len(b) > 0 && b[0] >= 'A' && b[0] <= 'Z' && len(fn.TypeArgs()) == 0 {
 			return func(i *Interp, fr *frame, fn *ssa.Function, args []value) value {
 				i.abort(stInconclusive, "reflect API not modelled: "+name)
 				return nil
